@@ -31,6 +31,11 @@ TARGETS = {
                  methods={"value": dict(pure=True), "increment": dict(params={"n": "Z"}),
                           "node_value": dict(params={"node_id": "Z"}, pure=True),
                           "merge": dict(params={"other": "GCounter"})}),
+            dict(file="happysimulator/components/crdt/pn_counter.py", cls="PNCounter",
+                 fields={"_node_id": "Z", "_p": "GCounter", "_n": "GCounter"},
+                 methods={"value": dict(pure=True), "increments": dict(pure=True), "decrements": dict(pure=True),
+                          "increment": dict(params={"n": "Z"}), "decrement": dict(params={"n": "Z"}),
+                          "merge": dict(params={"other": "PNCounter"})}),
             dict(file="happysimulator/components/crdt/lww_register.py", cls="LWWRegister",
                  fields={"_node_id": "Z", "_value": "Z", "_timestamp": "opt HLCTimestamp"},
                  methods={"set": dict(params={"value": "Z", "timestamp": "HLCTimestamp"}),
